@@ -7,8 +7,10 @@ package c09
 
 import (
 	"fmt"
+	"os"
 	"strings"
 	"testing"
+	"time"
 
 	"github.com/anishathalye/porcupine"
 
@@ -20,8 +22,28 @@ import (
 var lastHist []raftrun.Op
 var lastDesc string
 
+// a sixth of the runs are level-B runs (see levelb_test.go); the level is a function of
+// the run's seed because the simulated CPU cost per step differs between the levels
+// (level B needs the raftkvs bootstrap packages instrumented: the driver says so)
+func isLevelB(seed uint64) bool {
+	return os.Getenv("VERIF_C09_LEVELB") == "1" && sim.SplitMix64(seed^0xb09)%6 == 0
+}
+
+func configure(seed uint64, tier string) sim.RunConfig {
+	if isLevelB(seed) {
+		x := sim.SplitMix64(seed ^ 0xc09)
+		return sim.RunConfig{MaxSteps: 4_000_000, MaxSim: 10 * time.Minute, PreemptProb: []float64{0.05, 0.2}[x%2],
+			StepCost: []time.Duration{5 * time.Microsecond, 20 * time.Microsecond}[(x>>4)%2]}
+	}
+	return sim.RunConfig{MaxSteps: 3_000_000, StepCost: 1000}
+}
+
 func scenario(w *sim.World) {
 	lastHist = nil
+	if isLevelB(w.Config().Seed) {
+		levelB(w)
+		return
+	}
 	out := raftrun.Run(w, raftrun.Options{})
 	for k, v := range out.Probes {
 		for i := 0; i < v; i++ {
@@ -134,7 +156,7 @@ func postCheck(r *sim.Result) (string, string) {
 func TestWorker(t *testing.T) {
 	harness.Worker(t, harness.Spec{
 		Property:  "C09",
-		Configure: func(seed uint64, tier string) sim.RunConfig { return sim.RunConfig{MaxSteps: 3_000_000, StepCost: 1000} },
+		Configure: configure,
 		Scenario:  scenario,
 		PostCheck: postCheck,
 		NonTrivial: func(r *sim.Result) bool {
